@@ -14,6 +14,7 @@ from __future__ import annotations
 import collections
 import copy
 import json
+import keyword as pykeyword
 import re
 import sys
 import time
@@ -95,6 +96,18 @@ def _all_steps(spec):
         yield op, p
         if isinstance(p.get("b"), dict):
             yield from _all_steps(p["b"])
+
+
+def _expr_texts(spec):
+    for op, p in _all_steps(spec):
+        for v in (p.get("ops") or {}).values():
+            if isinstance(v, str):
+                yield v
+        e = p.get("expr")
+        if isinstance(e, str):
+            yield e
+        elif isinstance(e, list):
+            yield from e
 
 
 def spec_names(spec: Dict[str, Any]) -> set:
@@ -191,6 +204,10 @@ def eval_case(chain, renames: List[Tuple[str, str, str, str]], data_sets, base_c
             continue
         if what == "column" and any(op == "convert_records" and p.get("kind") == "rowrecs_to_blocks" and old in p.get("value_cols", []) for op, p in _all_steps(spec)):
             r["status"] = "name-becomes-data"  # rowrecs -> blocks writes the value columns' NAMES into the key column
+            out.append(r)
+            continue
+        if what == "column" and pykeyword.iskeyword(new) and any(re.search(r"(?<![A-Za-z0-9_.'\"])" + re.escape(old) + r"(?![A-Za-z0-9_'\"(])", t) for t in _expr_texts(spec)):
+            r["status"] = "name-not-expressible"  # `from`, `as`, ... cannot be written in expression TEXT
             out.append(r)
             continue
         cmap = {old: new} if what == "column" else {}
@@ -305,6 +322,17 @@ def _sql_alias_collision(rops, name: str) -> bool:
     return False
 
 
+def _quoted_in_sql(rops, name: str) -> bool:
+    """the SQLite SQL of the renamed pipeline mentions the name, and only as a quoted identifier"""
+    import data_algebra.SQLite
+
+    try:
+        toks = O.lex_sql("SQLiteModel", rops.to_sql(data_algebra.SQLite.SQLiteModel()))
+    except Exception:
+        return False
+    return any(k == "qid" and v == name for k, v in toks) and not any(k == "w:" + name.upper() for k, v in toks)
+
+
 def classify(chain, ops, r, rops=None) -> Dict[str, List[str]]:
     keys: Dict[str, List[str]] = collections.OrderedDict()
     types = _node_types(ops)
@@ -321,6 +349,10 @@ def classify(chain, ops, r, rops=None) -> Dict[str, List[str]]:
                 ok_site = any(t in types for t in need.split("|"))
             if ok_site:
                 hit = (site, "user-column-named-" + (("<column>" + pat[1:]) if pat.startswith("*") else pat.replace("*", "<N>")))
+        if what == "column" and be == "sqlite" and pat in ("sql-keyword:true", "sql-keyword:false") and rops is not None and _quoted_in_sql(rops, new):
+            # SQLite (3.40) reads a double-quoted "true" / "false" in a SELECT list over a sub-query as the constant, not as the
+            # sub-query's column; the generated SQL does quote the identifier
+            hit = ("sql_model.SQLModel.quote_identifier", "column-named-true-or-false-misread-by-sqlite")
         if what == "table" and be == "sqlite" and pat.endswith("*") and rops is not None and _sql_alias_collision(rops, new):
             hit = ("sql_model.SQLModel.to_sql", "user-table-named-like-generated-subquery-name")
         if hit is not None:
@@ -337,7 +369,7 @@ def classify(chain, ops, r, rops=None) -> Dict[str, List[str]]:
 
 def scope(tier: str) -> Dict[str, Any]:
     if tier == "quick":
-        return {"d2_shard": 4, "positions": 1, "per_case": 1, "max_rows": 3, "cap": 24}
+        return {"d2_shard": 8, "positions": 1, "per_case": 1, "max_rows": 3, "cap": 24}
     return {"d2_shard": 1, "positions": 2, "per_case": 1, "max_rows": 3, "cap": 40}
 
 
@@ -369,6 +401,35 @@ def renames_for(chain, idx: int, names: List[Tuple[str, str]], positions: int) -
     return list(collections.OrderedDict.fromkeys(out))
 
 
+def keyword_names() -> List[Tuple[str, str]]:
+    """SQL keywords / niladic functions as user COLUMN names (lower and UPPER case); pattern 'sql-keyword:<kw>'"""
+    from cbc.c14 import SQL_KEYWORDS
+
+    return [(k, "sql-keyword:" + kw) for kw in SQL_KEYWORDS for k in (kw, kw.upper())]
+
+
+def keyword_renames_for(chain, idx: int, tier: str) -> List[Tuple[str, str, str, str]]:
+    """a keyword-like name for the input columns the pipeline MENTIONS in its operators (so that the name appears in the
+    SQL of that operator): single-operator pipelines -- every mentioned column (at most 3) in lower case and (quick: the first one) in UPPER case; two-operator
+    pipelines -- one mentioned column (rotating), lower case only at quick"""
+    spec = to_pipe_spec(chain)
+    cols, _ = input_names(spec)
+    toks = set(re.findall(r"[A-Za-z_][A-Za-z0-9_]*", json.dumps(spec["steps"])))
+    mentioned = [c for c in cols if c in toks] or cols[:1]
+    depth = len(chain["steps"])
+    out = []
+    for j, (nm, pat) in enumerate(keyword_names()):
+        if depth <= 1:
+            slots = mentioned[:3] if (nm == nm.lower() or tier != "quick") else mentioned[:1]
+        else:
+            if tier == "quick" and nm != nm.lower():
+                continue
+            slots = [mentioned[(idx + j) % len(mentioned)]]
+        for old in slots:
+            out.append(("column", old, nm, pat))
+    return out
+
+
 def _worker(job):
     pool = C.data_pool(*job["pool_args"])
     out = []
@@ -397,7 +458,7 @@ def bounded(rep: Report, tier: str, seed: int) -> None:
     items = []
     for i, ch in enumerate(chains):
         dis = [d for d in C.pick_data(n_pool, i, sc["per_case"] + 1, seed) if d != 0][: sc["per_case"]]
-        items.append({"chain": ch["chain"], "ids": ch["ids"], "renames": renames_for(ch["chain"], i, names, sc["positions"]), "dis": dis})
+        items.append({"chain": ch["chain"], "ids": ch["ids"], "renames": renames_for(ch["chain"], i, names, sc["positions"]) + keyword_renames_for(ch["chain"], i, tier), "dis": dis})
     outs = O.pool_map(_worker, [{"items": sh, "pool_args": pool_args} for sh in O.shards(items, 8)])
     counts = collections.Counter()
     notes = collections.Counter()
